@@ -254,4 +254,119 @@ def readerLoop : Nat → St → List Ev → List FOut
       | .pending => if script.isEmpty then [o] else readerLoop fuel s' r
       | _ => [o]
 
+/-! ### `split()`, and the frame layer as a request-body reader drives it (second round)
+
+`FrameStream::split` (`h3/src/frame.rs`) hands the receive half the same `FrameDecoder` (the
+`expected` memo) and the same `remaining_data`; `BufRecvStream::split` (`h3/src/stream.rs`) hands it
+the buffered chunks and the end-of-stream flag.  The send half starts empty and never reads.  So on
+the four components of the frame-layer state `split` is the identity — that is what the model says,
+and what the differential run checks against the real `RequestStream::split`. -/
+
+/-- the receive half after `split()` -/
+def St.split (s : St) : St :=
+  { buf := s.buf, eos := s.eos, expected := s.expected, remaining := s.remaining }
+
+/-- call letters `n`, `d`, `s` -/
+inductive CallS where
+  | next | data | split
+deriving Repr, DecidableEq
+
+/-- a call sequence without its `split`s -/
+def CallS.erase : List CallS → List Call
+  | [] => []
+  | .next :: r => .next :: CallS.erase r
+  | .data :: r => .data :: CallS.erase r
+  | .split :: r => CallS.erase r
+
+/-- `runCalls` with `split()` anywhere between the calls (the calls go on on the receive half) -/
+def runCallsS : St → List Ev → List CallS → List FOut
+  | _, _, [] => []
+  | s, script, c :: cs =>
+    match c with
+    | .split => runCallsS s.split script cs
+    | .next =>
+      let (o, s', r) := pollNext frameDec s script
+      match o with
+      | .frame _ => o :: runCallsS s' r cs
+      | .pending => o :: runCallsS s' r cs
+      | _ => [o]
+    | .data =>
+      let (o, s', r) := pollData (F := H3.Frame.Frame) (E := H3.Frame.FrameErr) s script
+      match o with
+      | .data _ => o :: runCallsS s' r cs
+      | .pending => o :: runCallsS s' r cs
+      | .none => o :: runCallsS s' r cs
+      | _ => [o]
+
+/-- result of one `poll_recv_data`: the answer, the answers of the frame-layer calls behind it
+    (`raw`, in order), the state and the rest of the script afterwards -/
+structure Recv where
+  out : FOut
+  raw : List FOut
+  st : St
+  script : List Ev
+deriving Repr
+
+/-- `RequestStream::poll_recv_data` (`h3/src/connection.rs`), the part that drives the frame layer:
+    `while !self.stream.has_data() { match ready!(poll_next) … }` then `poll_data`.  A DATA frame header
+    lets the loop go on (an empty DATA frame is not the end of the body), a HEADERS frame ends the
+    body (`Ok(None)`, the block is kept for `recv_trailers`), any other frame is answered as it is
+    (`.frame f`: the caller closes the connection with H3_FRAME_UNEXPECTED), everything else
+    (`None`, `Pending`, an error) is passed on.  Fuel: every turn of the loop consumes a frame header. -/
+def recvData : Nat → St → List Ev → Recv
+  | 0, s, sc => ⟨.pending, [], s, sc⟩
+  | fuel+1, s, sc =>
+    if s.remaining ≠ 0 then
+      match pollData (F := H3.Frame.Frame) (E := H3.Frame.FrameErr) s sc with
+      | (o, s', r) => ⟨o, [o], s', r⟩
+    else
+      match pollNext frameDec s sc with
+      | (.frame (.data n), s', r) =>
+        let x := recvData fuel s' r
+        { x with raw := .frame (.data n) :: x.raw }
+      | (.frame (.headers p), s', r) => ⟨.none, [.frame (.headers p)], s', r⟩
+      | (o, s', r) => ⟨o, [o], s', r⟩
+
+def scriptLen : List Ev → Nat
+  | [] => 0
+  | .chunk b :: r => b.length + scriptLen r
+  | _ :: r => scriptLen r
+
+/-- enough fuel for `recvData`: every frame header has at least two bytes -/
+def recvFuel (s : St) (sc : List Ev) : Nat := s.flat.length + scriptLen sc + 2
+
+/-- call letters `r`, `s` -/
+inductive CallR where
+  | recv | split
+deriving Repr, DecidableEq
+
+structure RRun where
+  /-- the answers of the `poll_recv_data` calls -/
+  outs : List FOut
+  /-- the answers of all frame-layer calls behind them -/
+  raw : List FOut
+  st : St
+  script : List Ev
+  /-- a call has given a terminal answer (end of the body or an error); later calls are not made -/
+  ended : Bool
+deriving Repr
+
+/-- a request-body reader: `poll_recv_data` again and again (until the end of the body or an
+    error), with `split()` anywhere in between -/
+def runR : St → List Ev → List CallR → RRun
+  | s, sc, [] => ⟨[], [], s, sc, false⟩
+  | s, sc, c :: cs =>
+    match c with
+    | .split => runR s.split sc cs
+    | .recv =>
+      let x := recvData (recvFuel s sc) s sc
+      match x.out with
+      | .data _ =>
+        let y := runR x.st x.script cs
+        { y with outs := x.out :: y.outs, raw := x.raw ++ y.raw }
+      | .pending =>
+        let y := runR x.st x.script cs
+        { y with outs := x.out :: y.outs, raw := x.raw ++ y.raw }
+      | _ => ⟨[x.out], x.raw, x.st, x.script, true⟩
+
 end H3.FS
